@@ -7,7 +7,8 @@ conflicts with a later fix), run the check(s) with VERIF_REPO pointing at it, an
 import glob, json, os, re, subprocess, sys, shutil
 VERIF = "/verif"
 PINNED = "9f1ceaf"
-WT = {"head": "/tmp/mut/head", "pinned": "/tmp/mut/pinned"}
+SLOT = os.environ.get("RUN_SLOT", "")
+WT = {"head": "/tmp/mut/head" + SLOT, "pinned": "/tmp/mut/pinned" + SLOT}
 
 def sh(cmd, cwd=None, env=None):
     r = subprocess.run(cmd, shell=True, cwd=cwd, env=env, stdout=subprocess.PIPE, stderr=subprocess.STDOUT, text=True)
@@ -27,7 +28,7 @@ def claimed():
     return [c["property_id"] for c in m["checks"]]
 
 def run_check(prop, tree):
-    env = dict(os.environ, VERIF_REPO=tree, VERIF_OUT="/tmp/mut/out", VERIF_FACTS_KEEP="4")
+    env = dict(os.environ, VERIF_REPO=tree, VERIF_OUT="/tmp/mut/out" + SLOT, VERIF_FACTS_KEEP="12")
     rc, out = sh("./check %s --tier %s" % (prop, TIER), cwd=VERIF, env=env)
     keys = set(re.findall(r"rule=\S+ key=(.*?)(?: at \S+)?$", out, re.M))
     return rc, keys, out
@@ -49,7 +50,7 @@ def main():
             sh("git checkout -q -- . && git clean -qfd", cwd=WT[which])
             base[which][prop] = run_check(prop, WT[which])[1]
         return base[which][prop]
-    res_path = os.path.join(VERIF, "seeded", "RESULTS.json")
+    res_path = os.path.join(VERIF, "seeded", "RESULTS%s.json" % SLOT)
     results = json.load(open(res_path)) if os.path.exists(res_path) else {}
     seeds = sorted(glob.glob(os.path.join(VERIF, "seeded", "C*", "[0-9]")))
     for d in seeds:
